@@ -9,8 +9,11 @@ import os
 import time
 
 ROOT = os.path.dirname(os.path.dirname(os.path.abspath(__file__)))
-EVIDENCE_DIR = os.path.join(ROOT, "evidence")
-REPLAY_DIR = os.path.join(ROOT, "replays")
+# VERIF_OUT redirects evidence/replays (used only by the mutant runner, so that runs against a
+# scratch copy of the repository never overwrite the evidence of the real tree)
+_OUT = os.environ.get("VERIF_OUT") or ROOT
+EVIDENCE_DIR = os.path.join(_OUT, "evidence")
+REPLAY_DIR = os.path.join(_OUT, "replays")
 KNOWN_FILE = os.path.join(ROOT, "known_findings.json")
 
 
